@@ -823,13 +823,13 @@ package leveldb
 // internal order must lie in [imin, imax]). That the level is sorted and disjoint is the C06 induction hypothesis.
 //@ spec func mayHold(t ref, ik ikey) bool = ikcmp(t.imax, ik) >= 0 && kcmp(ukeyof(ik), ukeyof(t.imin)) >= 0 && kcmp(ukeyof(ik), ukeyof(t.imax)) <= 0
 //@ func (*version).walkOverlapping
-//@   props C01
+//@   props C01 C03 C19
 //@   abstract keys
 //@   safety off
 //@   at before call (tFiles).searchMax#1
-//@     assume [C01:levels-below-the-top-are-sorted-and-disjoint] sortedDisjoint(tables)
+//@     assume [C01,C03,C19:levels-below-the-top-are-sorted-and-disjoint] sortedDisjoint(tables)
 //@   at call (tFiles).searchMax#1
-//@     assert [C01:tables-not-offered-cannot-hold-a-visible-entry] forall j int :: (0 <= j && j < len(tables) && j != result) ==> !mayHold(tables[j], ikey)
+//@     assert [C01,C03,C19:tables-not-offered-cannot-hold-a-visible-entry] forall j int :: (0 <= j && j < len(tables) && j != result) ==> !mayHold(tables[j], ikey)
 
 // C07: the number of a removed table may be handed out again only once the file itself has been removed - that is,
 // by the deferred callback that runs when the last reader of the table is gone, after the storage removal - never by
@@ -937,13 +937,13 @@ package leveldb
 // C06 / C01 / C04: the flushed write buffer becomes one table; the level asked for is asked for THIS table's key
 // range, and the table is recorded at the level answered (with its own number, size and bounds).
 //@ func (*session).flushMemdb
-//@   props C06 C01
+//@   props C06 C01 C04
 //@   abstract keys
 //@   safety off
 //@   at before call (*session).pickMemdbLevel#1
-//@     assert [C01,C06:level-is-chosen-for-the-new-tables-own-range] krank(arg0) == krank(ukeyof(t.imin)) && krank(arg1) == krank(ukeyof(t.imax)) && arg2 == maxLevel
+//@     assert [C01,C04,C06:level-is-chosen-for-the-new-tables-own-range] krank(arg0) == krank(ukeyof(t.imin)) && krank(arg1) == krank(ukeyof(t.imax)) && arg2 == maxLevel
 //@   at before call (*sessionRecord).addTableFile#1
-//@     assert [C01,C06:table-recorded-at-the-level-chosen] arg0 == flushLevel && arg1 == t
+//@     assert [C01,C04,C06:table-recorded-at-the-level-chosen] arg0 == flushLevel && arg1 == t
 //@ func (*session).pickMemdbLevel
 //@   props C06 C01
 //@   abstract keys
@@ -951,12 +951,12 @@ package leveldb
 //@   at before call (*version).pickMemdbLevel#1
 //@     assert [C01,C06:question-passed-on-unchanged] krank(arg0) == krank(umin) && krank(arg1) == krank(umax) && arg2 == maxLevel
 //@ func (*sessionRecord).addTableFile
-//@   props C06 C01
+//@   props C06 C01 C04
 //@   abstract keys
 //@   safety off
 //@   inline
 //@   at before call (*sessionRecord).addTable#1
-//@     assert [C01,C06:record-carries-the-tables-own-number-size-and-bounds] arg0 == level && arg1 == t.fd.Num && arg2 == t.size && ikcmp(arg3, t.imin) == 0 && ikcmp(arg4, t.imax) == 0
+//@     assert [C01,C04,C06:record-carries-the-tables-own-number-size-and-bounds] arg0 == level && arg1 == t.fd.Num && arg2 == t.size && ikcmp(arg3, t.imin) == 0 && ikcmp(arg4, t.imax) == 0
 
 // C06 / C01: where a flushed write buffer goes. The level chosen and every level above it hold no table that
 // overlaps the new table's user-key range: the new table stays disjoint from its level, and nothing older ends up
@@ -982,46 +982,46 @@ package leveldb
 // source (flush), and commits the very record it filled.
 //@ count (*sessionRecord).delTable
 //@ func (*DB).tableCompaction
-//@   props C06 C01
+//@   props C06 C01 C03 C07
 //@   safety off
 //@   at before call (*sessionRecord).delTable#1
-//@     assert [C01,C06:trivial-move-takes-the-table-out-of-its-level] arg0 == c.sourceLevel && arg1 == c.levels[0][0].fd.Num
+//@     assert [C01,C03,C06,C07:trivial-move-takes-the-table-out-of-its-level] arg0 == c.sourceLevel && arg1 == c.levels[0][0].fd.Num
 //@   at before call (*sessionRecord).addTableFile#1
-//@     assert [C01,C06:trivial-move-puts-the-same-table-one-level-down] arg0 == c.sourceLevel + 1 && arg1 == c.levels[0][0]
+//@     assert [C01,C03,C06,C07:trivial-move-puts-the-same-table-one-level-down] arg0 == c.sourceLevel + 1 && arg1 == c.levels[0][0]
 //@   loop 1
-//@     invariant [C01,C06:every-input-so-far-is-recorded-deleted] calls("(*sessionRecord).delTable") == old(calls("(*sessionRecord).delTable")) + (rangeidx1 >= 1 ? len(c.levels[0]) : 0) + (rangeidx1 >= 2 ? len(c.levels[1]) : 0)
+//@     invariant [C01,C03,C06,C07:every-input-so-far-is-recorded-deleted] calls("(*sessionRecord).delTable") == old(calls("(*sessionRecord).delTable")) + (rangeidx1 >= 1 ? len(c.levels[0]) : 0) + (rangeidx1 >= 2 ? len(c.levels[1]) : 0)
 //@   loop 2
-//@     invariant [C01,C06:every-input-of-this-level-so-far-is-recorded-deleted] calls("(*sessionRecord).delTable") == old(calls("(*sessionRecord).delTable")) + (i >= 1 ? len(c.levels[0]) : 0) + rangeidx2
+//@     invariant [C01,C03,C06,C07:every-input-of-this-level-so-far-is-recorded-deleted] calls("(*sessionRecord).delTable") == old(calls("(*sessionRecord).delTable")) + (i >= 1 ? len(c.levels[0]) : 0) + rangeidx2
 //@   at before call (*sessionRecord).delTable#2
-//@     assert [C01,C06:input-deleted-at-its-own-level] arg0 == c.sourceLevel + i && arg1 == t.fd.Num
+//@     assert [C01,C03,C06,C07:input-deleted-at-its-own-level] arg0 == c.sourceLevel + i && arg1 == t.fd.Num
 //@   at before call (*DB).compactionTransact#1
-//@     assert [C01,C06:every-input-is-recorded-deleted] calls("(*sessionRecord).delTable") == old(calls("(*sessionRecord).delTable")) + len(c.levels[0]) + len(c.levels[1])
-//@     assert [C01,C06:builder-fills-this-compactions-record] b.rec == rec && b.c == c
+//@     assert [C01,C03,C06,C07:every-input-is-recorded-deleted] calls("(*sessionRecord).delTable") == old(calls("(*sessionRecord).delTable")) + len(c.levels[0]) + len(c.levels[1])
+//@     assert [C01,C03,C06,C07:builder-fills-this-compactions-record] b.rec == rec && b.c == c
 //@   at before call (*DB).compactionCommit#2
-//@     assert [C01,C06:the-record-filled-is-the-record-committed] arg1 == rec
+//@     assert [C01,C03,C06,C07:the-record-filled-is-the-record-committed] arg1 == rec
 //@ func (*tableCompactionBuilder).flush
-//@   props C06 C01
+//@   props C06 C01 C03
 //@   safety off
 //@   at before call (*sessionRecord).addTableFile#1
-//@     assert [C01,C06:compaction-output-goes-one-level-below-its-source] arg0 == b.c.sourceLevel + 1 && arg1 == t
+//@     assert [C01,C03,C06:compaction-output-goes-one-level-below-its-source] arg0 == b.c.sourceLevel + 1 && arg1 == t
 
 // C01 / C03: a compaction reads ALL of its inputs: every table of a level-0 input and the whole list of a deeper
 // input are put behind an iterator, over the full key range, and all of them are merged.
 //@ spec func itsFor(c ref, j int) int = len(c.levels[j]) == 0 ? 0 : (c.sourceLevel + j == 0 ? len(c.levels[j]) : 1)
 //@ func (*compaction).newIterator
-//@   props C01 C03
+//@   props C01 C03 C06
 //@   safety off
 //@   requires c.sourceLevel >= 0
 //@   loop 1
-//@     invariant [C01,C03:one-iterator-per-input-so-far] len(its) == (rangeidx1 >= 1 ? itsFor(c, 0) : 0) + (rangeidx1 >= 2 ? itsFor(c, 1) : 0)
+//@     invariant [C01,C03,C06:one-iterator-per-input-so-far] len(its) == (rangeidx1 >= 1 ? itsFor(c, 0) : 0) + (rangeidx1 >= 2 ? itsFor(c, 1) : 0)
 //@   loop 2
-//@     invariant [C01,C03:one-iterator-per-level-0-table-so-far] i == 0 && len(its) == rangeidx2
+//@     invariant [C01,C03,C06:one-iterator-per-level-0-table-so-far] i == 0 && len(its) == rangeidx2
 //@   at before call (*tOps).newIterator#1
-//@     assert [C01,C03:input-tables-are-read-over-the-full-range] arg1 == nil && arg0 == t
+//@     assert [C01,C03,C06:input-tables-are-read-over-the-full-range] arg1 == nil && arg0 == t
 //@   at before call (tFiles).newIndexIterator#1
-//@     assert [C01,C03:input-tables-are-read-over-the-full-range] arg2 == nil && sameslice(recv, c.levels[i])
+//@     assert [C01,C03,C06:input-tables-are-read-over-the-full-range] arg2 == nil && sameslice(recv, c.levels[i])
 //@   at before call NewMergedIterator#1
-//@     assert [C01,C03:every-input-is-merged] len(arg0) == itsFor(c, 0) + itsFor(c, 1)
+//@     assert [C01,C03,C06:every-input-is-merged] len(arg0) == itsFor(c, 0) + itsFor(c, 1)
 
 // C01 / C03 / C06: a deletion marker may be dropped only when no deeper level can still hold an older entry for its
 // user key. "Base level" must therefore mean: no table of any level below the compaction's output level has the
@@ -1329,7 +1329,7 @@ package leveldb
 //@ ghost var gItPrevHas bool
 //@ ghost var gItPrevU key
 //@ func (*dbIter).next
-//@   props C02
+//@   props C02 C03
 //@   abstract keys
 //@   safety off
 //@   at entry
@@ -1341,12 +1341,12 @@ package leveldb
 //@     ghost gItHas = (gItHas || seq <= i.seq)
 //@     ghost gItU = (seq <= i.seq ? krank(ukey) : gItU)
 //@   loop 1
-//@     invariant [C02:barrier-covers-the-last-visible-key] (gItHas ==> (i.dir != dirSOI && gItU <= krank(i.key))) && (i.dir != dirSOI ==> gItHas)
-//@     invariant [C02:no-error-so-far] i.err == old(i.err)
+//@     invariant [C02,C03:barrier-covers-the-last-visible-key] (gItHas ==> (i.dir != dirSOI && gItU <= krank(i.key))) && (i.dir != dirSOI ==> gItHas)
+//@     invariant [C02,C03:no-error-so-far] i.err == old(i.err)
 //@   at before stmt return true
-//@     assert [C02:newest-visible-version-of-a-new-key] seq <= i.seq && kt == keyTypeVal && (!gItPrevHas || gItPrevU != krank(ukey))
-//@   ensures [C02:stepping-off-the-end-is-remembered] !result ==> (i.dir == dirEOI || i.err != nil)
-//@   ensures [C02:a-hit-leaves-the-iterator-on-it] result ==> (i.dir == dirForward && i.err == old(i.err))
+//@     assert [C02,C03:newest-visible-version-of-a-new-key] seq <= i.seq && kt == keyTypeVal && (!gItPrevHas || gItPrevU != krank(ukey))
+//@   ensures [C02,C03:stepping-off-the-end-is-remembered] !result ==> (i.dir == dirEOI || i.err != nil)
+//@   ensures [C02,C03:a-hit-leaves-the-iterator-on-it] result ==> (i.dir == dirForward && i.err == old(i.err))
 
 // A backward step: entries arrive with user keys descending and, within a user key, oldest first; the candidate the
 // step returns is the last visible entry recorded for its user key (hence the newest visible version), it is a
@@ -1359,7 +1359,7 @@ package leveldb
 //@ ghost var gPvPrevIsVal bool
 //@ ghost var gPvPrevU key
 //@ func (*dbIter).prev
-//@   props C02
+//@   props C02 C03
 //@   abstract keys
 //@   safety off
 //@   at entry
@@ -1372,14 +1372,14 @@ package leveldb
 //@     ghost gPvIsVal = (seq <= i.seq ? kt != keyTypeDel : gPvIsVal)
 //@     ghost gPvU = (seq <= i.seq ? krank(ukey) : gPvU)
 //@   loop 1
-//@     invariant [C02:candidate-is-the-last-visible-entry] (!del ==> (gPvHas && gPvIsVal && gPvU == krank(i.key))) && (del ==> (!gPvHas || !gPvIsVal))
-//@     invariant [C02:direction-kept] i.dir == dirBackward
+//@     invariant [C02,C03:candidate-is-the-last-visible-entry] (!del ==> (gPvHas && gPvIsVal && gPvU == krank(i.key))) && (del ==> (!gPvHas || !gPvIsVal))
+//@     invariant [C02,C03:direction-kept] i.dir == dirBackward
 //@   at before stmt return true#1
-//@     assert [C02:newest-visible-version-complete] gPvPrevHas && gPvPrevIsVal && gPvPrevU == krank(i.key) && krank(ukey) != krank(i.key) && seq <= i.seq
+//@     assert [C02,C03:newest-visible-version-complete] gPvPrevHas && gPvPrevIsVal && gPvPrevU == krank(i.key) && krank(ukey) != krank(i.key) && seq <= i.seq
 //@   at before stmt return true#2
-//@     assert [C02:newest-visible-version-at-the-start] gPvHas && gPvIsVal && gPvU == krank(i.key)
-//@   ensures [C02:stepping-off-the-start-is-remembered] !result ==> (i.dir == dirSOI || i.err != nil)
-//@   ensures [C02:a-hit-leaves-the-iterator-on-it] result ==> i.dir == dirBackward
+//@     assert [C02,C03:newest-visible-version-at-the-start] gPvHas && gPvIsVal && gPvU == krank(i.key)
+//@   ensures [C02,C03:stepping-off-the-start-is-remembered] !result ==> (i.dir == dirSOI || i.err != nil)
+//@   ensures [C02,C03:a-hit-leaves-the-iterator-on-it] result ==> i.dir == dirBackward
 
 // ---------------------------------------------------------------------------
 // C07: the janitor that runs at open removes a manifest or journal only if it is older than the live one (the
@@ -1547,21 +1547,21 @@ package leveldb
 // buffer and the frozen buffer (each one that exists) have been asked and had nothing for the key.
 //@ count memGet
 //@ func (*DB).get
-//@   props C01
+//@   props C01 C19
 //@   safety off
 //@   requires seq <= keyMaxSeq
 //@   loop 1
-//@     invariant [C01:every-buffer-is-asked] calls("memGet") == old(calls("memGet")) + (auxm != nil ? 1 : 0) + ((rangeidx >= 1 && em != nil) ? 1 : 0) + ((rangeidx >= 2 && fm != nil) ? 1 : 0)
+//@     invariant [C01,C19:every-buffer-is-asked] calls("memGet") == old(calls("memGet")) + (auxm != nil ? 1 : 0) + ((rangeidx >= 1 && em != nil) ? 1 : 0) + ((rangeidx >= 2 && fm != nil) ? 1 : 0)
 //@   at before call (*version).get#1
-//@     assert [C01:buffers-before-tables] calls("memGet") == old(calls("memGet")) + (auxm != nil ? 1 : 0) + (em != nil ? 1 : 0) + (fm != nil ? 1 : 0)
+//@     assert [C01,C19:buffers-before-tables] calls("memGet") == old(calls("memGet")) + (auxm != nil ? 1 : 0) + (em != nil ? 1 : 0) + (fm != nil ? 1 : 0)
 //@ func (*DB).has
-//@   props C01
+//@   props C01 C19
 //@   safety off
 //@   requires seq <= keyMaxSeq
 //@   loop 1
-//@     invariant [C01:every-buffer-is-asked] calls("memGet") == old(calls("memGet")) + (auxm != nil ? 1 : 0) + ((rangeidx >= 1 && em != nil) ? 1 : 0) + ((rangeidx >= 2 && fm != nil) ? 1 : 0)
+//@     invariant [C01,C19:every-buffer-is-asked] calls("memGet") == old(calls("memGet")) + (auxm != nil ? 1 : 0) + ((rangeidx >= 1 && em != nil) ? 1 : 0) + ((rangeidx >= 2 && fm != nil) ? 1 : 0)
 //@   at before call (*version).get#1
-//@     assert [C01:buffers-before-tables] calls("memGet") == old(calls("memGet")) + (auxm != nil ? 1 : 0) + (em != nil ? 1 : 0) + (fm != nil ? 1 : 0)
+//@     assert [C01,C19:buffers-before-tables] calls("memGet") == old(calls("memGet")) + (auxm != nil ? 1 : 0) + (em != nil ? 1 : 0) + (fm != nil ? 1 : 0)
 
 // C02 (absolute moves): Seek positions the merged source at the earliest internal key of the target at the iterator's
 // own sequence number (so that nothing newer than the snapshot is looked at first and nothing of the target is
@@ -1569,17 +1569,17 @@ package leveldb
 // before the end leaves it before the start.
 //@ ghost var gRawOK bool
 //@ func (*dbIter).Seek
-//@   props C02
+//@   props C02 C03
 //@   abstract keys
 //@   safety off
 //@   requires i.seq <= keyMaxSeq
 //@   at before call iterator.IteratorSeeker.Seek#1
-//@     assert [C02:source-sought-at-the-target-and-the-iterators-sequence] kcmp(ukeyof(arg0), key) == 0 && numof(arg0) == i.seq * 256 + keyTypeSeek
+//@     assert [C02,C03:source-sought-at-the-target-and-the-iterators-sequence] kcmp(ukeyof(arg0), key) == 0 && numof(arg0) == i.seq * 256 + keyTypeSeek
 //@   at call iterator.IteratorSeeker.Seek#1
 //@     ghost gRawOK = result
 //@   at entry
 //@     ghost gRawOK = true
-//@   ensures [C02:nothing-at-or-after-the-target-is-the-end] (old(i.err) == nil && old(i.dir) != dirReleased && !gRawOK) ==> (!result && i.dir == dirEOI)
+//@   ensures [C02,C03:nothing-at-or-after-the-target-is-the-end] (old(i.err) == nil && old(i.dir) != dirReleased && !gRawOK) ==> (!result && i.dir == dirEOI)
 //@ func (*dbIter).First
 //@   props C02
 //@   abstract keys
@@ -1617,31 +1617,31 @@ package leveldb
 // C02 (range slicing): an iterator restricted to a key range is assembled from sources that are each restricted
 // to that same range - the transaction's buffer and tables, the write buffers and the tables of the version.
 //@ func (*DB).newRawIterator
-//@   props C02 C11
+//@   props C02 C11 C03
 //@   safety off
 //@   at before call (*version).getIterators#1
-//@     assert [C02,C11:every-source-is-restricted-to-the-range] arg0 == slice
+//@     assert [C02,C03,C11:every-source-is-restricted-to-the-range] arg0 == slice
 //@   at before call (*DB).NewIterator#1
-//@     assert [C02,C11:every-source-is-restricted-to-the-range] arg0 == slice
+//@     assert [C02,C03,C11:every-source-is-restricted-to-the-range] arg0 == slice
 //@   at before call (*DB).NewIterator#2
-//@     assert [C02,C11:every-source-is-restricted-to-the-range] arg0 == slice
+//@     assert [C02,C03,C11:every-source-is-restricted-to-the-range] arg0 == slice
 //@   at before call (*DB).NewIterator#3
-//@     assert [C02,C11:every-source-is-restricted-to-the-range] arg0 == slice
+//@     assert [C02,C03,C11:every-source-is-restricted-to-the-range] arg0 == slice
 //@   at before call (*tOps).newIterator#1
-//@     assert [C02,C11:every-source-is-restricted-to-the-range] arg1 == slice
+//@     assert [C02,C03,C11:every-source-is-restricted-to-the-range] arg1 == slice
 //@ func (*DB).newIterator
-//@   props C02 C11
+//@   props C02 C11 C03
 //@   safety off
 //@   at before call (*DB).newRawIterator#1
-//@     assert [C02,C11:sources-and-range-are-the-callers] arg0 == auxm && sameslice(arg1, auxt) && (slice == nil <==> arg2 == nil)
-//@     assert [C02,C11:each-bound-given-stays-a-bound] slice != nil ==> ((isnil(slice.Start) <==> isnil(arg2.Start)) && (isnil(slice.Limit) <==> isnil(arg2.Limit)) && (!isnil(slice.Start) ==> len(arg2.Start) == len(slice.Start) + 8) && (!isnil(slice.Limit) ==> len(arg2.Limit) == len(slice.Limit) + 8))
+//@     assert [C02,C03,C11:sources-and-range-are-the-callers] arg0 == auxm && sameslice(arg1, auxt) && (slice == nil <==> arg2 == nil)
+//@     assert [C02,C03,C11:each-bound-given-stays-a-bound] slice != nil ==> ((isnil(slice.Start) <==> isnil(arg2.Start)) && (isnil(slice.Limit) <==> isnil(arg2.Limit)) && (!isnil(slice.Start) ==> len(arg2.Start) == len(slice.Start) + 8) && (!isnil(slice.Limit) ==> len(arg2.Limit) == len(slice.Limit) + 8))
 //@ func (*version).getIterators
-//@   props C02 C11
+//@   props C02 C11 C03
 //@   safety off
 //@   at before call (*tOps).newIterator#1
-//@     assert [C02,C11:every-table-iterator-is-restricted-to-the-range] arg1 == slice
+//@     assert [C02,C03,C11:every-table-iterator-is-restricted-to-the-range] arg1 == slice
 //@   at before call (tFiles).newIndexIterator#1
-//@     assert [C02,C11:every-table-iterator-is-restricted-to-the-range] arg2 == slice
+//@     assert [C02,C03,C11:every-table-iterator-is-restricted-to-the-range] arg2 == slice
 // (what the source iterators do with the range is C13 / C14 material: left abstract here)
 //@ func (*tOps).newIterator
 //@   props C02 C11 C01 C03
@@ -1672,11 +1672,11 @@ package leveldb
 //@ ghost var gMemFound bool
 //@ ghost var gMemGone bool
 //@ func (*DB).get
-//@   props C01 C11
+//@   props C01 C11 C19
 //@   at entry
 //@     ghost gMemOK = false
 //@   at before call memGet#2
-//@     assert [C01,C11:newer-write-buffer-is-asked-before-the-older] (rangeidx == 0 ==> (em != nil && arg0 == em.DB && em == old(db.mem))) && (rangeidx == 1 ==> (fm != nil && arg0 == fm.DB && fm == old(db.frozenMem)))
+//@     assert [C01,C11,C19:newer-write-buffer-is-asked-before-the-older] (rangeidx == 0 ==> (em != nil && arg0 == em.DB && em == old(db.mem))) && (rangeidx == 1 ==> (fm != nil && arg0 == fm.DB && fm == old(db.frozenMem)))
 //@   at call memGet#1
 //@     ghost gMemOK = ret0
 //@     ghost gMemFound = (ret2 == nil)
@@ -1686,18 +1686,18 @@ package leveldb
 //@     ghost gMemFound = (ret2 == nil)
 //@     ghost gMemGone = (ret2 == ErrNotFound)
 //@   loop 1
-//@     invariant [C01,C11:no-buffer-knew-the-key-so-far] !gMemOK
+//@     invariant [C01,C11,C19:no-buffer-knew-the-key-so-far] !gMemOK
 //@   at before call memGet#2
-//@     assert [C01,C11:first-buffer-that-knows-the-key-decides] !gMemOK
+//@     assert [C01,C11,C19:first-buffer-that-knows-the-key-decides] !gMemOK
 //@   at before call (*version).get#1
-//@     assert [C01,C11:first-buffer-that-knows-the-key-decides] !gMemOK
-//@   ensures [C01,C11:the-deciding-buffers-answer-is-the-answer] gMemOK ==> ((gMemFound <==> err == nil) && (gMemGone <==> err == ErrNotFound))
+//@     assert [C01,C11,C19:first-buffer-that-knows-the-key-decides] !gMemOK
+//@   ensures [C01,C11,C19:the-deciding-buffers-answer-is-the-answer] gMemOK ==> ((gMemFound <==> err == nil) && (gMemGone <==> err == ErrNotFound))
 //@ func (*DB).has
-//@   props C01 C11
+//@   props C01 C11 C19
 //@   at entry
 //@     ghost gMemOK = false
 //@   at before call memGet#2
-//@     assert [C01,C11:newer-write-buffer-is-asked-before-the-older] (rangeidx == 0 ==> (em != nil && arg0 == em.DB && em == old(db.mem))) && (rangeidx == 1 ==> (fm != nil && arg0 == fm.DB && fm == old(db.frozenMem)))
+//@     assert [C01,C11,C19:newer-write-buffer-is-asked-before-the-older] (rangeidx == 0 ==> (em != nil && arg0 == em.DB && em == old(db.mem))) && (rangeidx == 1 ==> (fm != nil && arg0 == fm.DB && fm == old(db.frozenMem)))
 //@   at call memGet#1
 //@     ghost gMemOK = ret0
 //@     ghost gMemFound = (ret2 == nil)
@@ -1707,12 +1707,12 @@ package leveldb
 //@     ghost gMemFound = (ret2 == nil)
 //@     ghost gMemGone = (ret2 == ErrNotFound)
 //@   loop 1
-//@     invariant [C01,C11:no-buffer-knew-the-key-so-far] !gMemOK
+//@     invariant [C01,C11,C19:no-buffer-knew-the-key-so-far] !gMemOK
 //@   at before call memGet#2
-//@     assert [C01,C11:first-buffer-that-knows-the-key-decides] !gMemOK
+//@     assert [C01,C11,C19:first-buffer-that-knows-the-key-decides] !gMemOK
 //@   at before call (*version).get#1
-//@     assert [C01,C11:first-buffer-that-knows-the-key-decides] !gMemOK
-//@   ensures [C01,C11:the-deciding-buffers-answer-is-the-answer] gMemOK ==> ((ret <==> gMemFound) && (gMemGone ==> (!ret && err == nil)) && ((!gMemFound && !gMemGone) ==> err != nil))
+//@     assert [C01,C11,C19:first-buffer-that-knows-the-key-decides] !gMemOK
+//@   ensures [C01,C11,C19:the-deciding-buffers-answer-is-the-answer] gMemOK ==> ((ret <==> gMemFound) && (gMemGone ==> (!ret && err == nil)) && ((!gMemFound && !gMemGone) ==> err != nil))
 
 // C20 (arguments of reads are not modified): the internal form of a key the caller passed (a lookup key, a range
 // bound, a seek target) is built in memory of its own, never in the caller's buffer - not even in its spare capacity.
